@@ -3,7 +3,8 @@
 (* gossiper: "LocalChan" (ProcessLocalAnnouncement of our channel's          *)
 (* announcement), "AnnSig" (our half through ProcessLocalAnnouncement, the   *)
 (* remote half through ProcessRemoteAnnouncement from the counterparty or a  *)
-(* stranger), "Restart" (gossiper stopped, a new one started on the same     *)
+(* stranger), "RemoteChan" (the full announcement of an own channel through  *)
+(* ProcessRemoteAnnouncement from a relaying peer), "Restart" (gossiper stopped, a new one started on the same     *)
 (* graph and WaitingProofStore), "End" after the last broadcast window.      *)
 (* Recorded after every call: the class of the result on the future, and     *)
 (* read back from the real objects: per own channel the edge (absent / in    *)
@@ -29,6 +30,7 @@ PReset == /\ Is("Reset")
           /\ nmsg' = 0 /\ last' = [kind |-> "Init", res |-> "-"]
 TPNext == \/ Is("LocalChan") /\ Trace[l].m.t = "LC" /\ Trace[l].m.c \in OwnChans /\ LocalChan(Trace[l].m.c)
           \/ Is("AnnSig") /\ AnnSig(Trace[l].m)
+          \/ Is("RemoteChan") /\ RemoteChan(Trace[l].m)
           \/ Is("Restart") /\ Restart
           \/ Is("End") /\ PNop("End", "-") /\ UNCHANGED nmsg
           \/ PReset
@@ -41,7 +43,7 @@ B(x) == IF x THEN 1 ELSE 0
 EdgeCode(e) == CASE e = "none" -> 0 [] e = "noproof" -> 1 [] e = "proof" -> 2
 HalfRec(b) == IF b = "-" THEN <<0, 0, 0>> ELSE <<1, B("n" \in HalfSigs(b)), B("b" \in HalfSigs(b))>>
 
-PMsgInUniverse == (Live /\ Last.a \in {"LocalChan", "AnnSig", "Restart"}) => Last.m \in PUniverse
+PMsgInUniverse == (Live /\ Last.a \in {"LocalChan", "AnnSig", "Restart", "RemoteChan"}) => Last.m \in PUniverse
 \* THE comparison: the edge of each own channel and whether it carries a proof; nothing else in the graph
 ConformProof == Live =>
   /\ \A c \in OwnChans : G.ed[c] = EdgeCode(edge[c])
@@ -52,7 +54,9 @@ ConformStore == Live =>
   /\ G.wl[3] = <<0, 0, 0>> /\ G.wr[3] = <<0, 0, 0>>                  \* the unknown channel never gets there
 \* nothing but the assembled announcements of channels whose proof the model added is handed to Broadcast
 ConformPRelay == Live => \A i \in 1..Len(Last.rel) : Last.rel[i].t = "CA" /\ Last.rel[i].c \in prelayed
-ConformPResult == (Live /\ Last.a \in {"LocalChan", "AnnSig"}) => Last.res = last.res
+ConformPResult == (Live /\ Last.a \in {"LocalChan", "AnnSig", "RemoteChan"}) => Last.res = last.res
+\* no reject-cache entry is ever made for the relaying peer (in-package read)
+ConformPRej == Live => \A c \in OwnChans : G.rj[c] = 0
 \* on recorded values alone (the property, whatever the model thinks): a stored proof and a relayed
 \* announcement verify under all four keys
 StoredProofVerifies == Live => \A c \in OwnChans : G.ed[c] = 2 => G.pv[c] = <<1, 1, 1, 1>>
